@@ -28,7 +28,7 @@ SPEC = dict(
     legs=[
         Leg('regress', 'h_route', 'asan', opts={'mode': 'regress'}, quick=1, thorough=1, workers=1, leaks=True, min_cases=1),
         Leg('route', 'h_route', 'asan', opts={'mode': 'route', 'msgs': '40', 'trav': '70'}, quick=1600, thorough=100000, workers=16, leaks=True),
-        Leg('memcheck', 'h_route', 'plain', opts={'mode': 'route', 'msgs': '40', 'trav': '70'}, quick=32, thorough=1600, workers=16, valgrind=True),
+        Leg('memcheck', 'h_route', 'plain', opts={'mode': 'route', 'msgs': '40', 'trav': '70'}, quick=16, thorough=1600, workers=16, valgrind=True),
     ],
     min_stats={'regress': {'regress_routed_messages': 25, 'regress_traversals': 1},
                'route': {'routed_messages': 50000, 'receiver_checks': 300000, 'deliveries_expected': 80000, 'bursts': 8000,
@@ -43,5 +43,5 @@ SPEC = dict(
                          'traversals_iterated_at_every_level': 20000, 'traversals_mixing_lookup_and_iteration': 30000,
                          'traversals_with_lookup_level_and_visits': 20000, 'traversals_with_filters': 12000, 'traversals_with_several_patterns': 40000,
                          'traversals_rooted_at_session_node': 10000, 'traversals_rooted_at_host_node': 3000},
-               'memcheck': {'routed_messages': 1000, 'receiver_checks': 6000, 'traversal_comparisons': 2000}},
+               'memcheck': {'routed_messages': 500, 'receiver_checks': 3000, 'traversal_comparisons': 1000}},
 )
